@@ -1,3 +1,177 @@
-From ST Require Import Base.Outcome Codec.Spec Codec.Model.
-Theorem placeholder : True. Proof. exact I. Qed.
-Print Assumptions placeholder.
+(* Properties/C15.v — decoders accept exactly the valid encodings and never
+   overrun the output buffer.  STATEMENTS ONLY (see C14.v for conventions).
+
+   hex_decode_buf s output osize / b64_decode_buf s output osize model the
+   caller-buffer decoders: `output = false` is the null pointer; the result is
+   (return value, cells written in order from output[0]); a write at an index
+   >= osize would be Fault OOBWrite, a read outside c_str() Fault OOBRead, an
+   exhausted loop Fault Hang.  All theorems quantify over every byte string `s`
+   (bytes_ok s: units < 256, true of any ST::string) of every length, every
+   output size, null and non-null output.                                       *)
+From Coq Require Import NArith ZArith List Bool.
+From ST Require Import Base.Outcome Base.Units Codec.Spec Codec.Model.
+From ST Require Codec.ProofsC15 Codec.ProofsDecHex Codec.ProofsDecB64 Codec.ProofsExamples.
+Import ListNotations.
+Local Open Scope N_scope.
+
+(* ======================= hex ======================= *)
+(* caller-buffer form: a length is returned  <->  valid and fits *)
+Theorem hex_accept_iff : forall s osize, bytes_ok s = true ->
+  ((exists n w, hex_decode_buf s true osize = Ok (Z.of_nat n, w))
+   <-> (valid_hex s = true /\ (length s / 2 <= osize)%nat)).
+Proof. exact ProofsC15.hex_accept_iff. Qed.
+Print Assumptions hex_accept_iff.
+
+(* ... otherwise it returns -1 *)
+Theorem hex_reject : forall s osize, bytes_ok s = true ->
+  ~ (valid_hex s = true /\ (length s / 2 <= osize)%nat) ->
+  exists w, hex_decode_buf s true osize = Ok ((-1)%Z, w).
+Proof. exact ProofsC15.hex_reject. Qed.
+Print Assumptions hex_reject.
+
+(* allocating form: codec_error exactly on invalid input; the decoded bytes otherwise;
+   in particular never Abort (the wrapper's ST_ASSERT) and never a Fault *)
+Theorem hex_decode_throw_iff : forall s, bytes_ok s = true ->
+  (hex_decode s = Throw CodecError <-> valid_hex s = false).
+Proof. exact ProofsC15.hex_decode_throw_iff. Qed.
+Print Assumptions hex_decode_throw_iff.
+
+Theorem hex_decode_is_spec : forall s, bytes_ok s = true -> valid_hex s = true ->
+  exists r, hex_decode_spec s = Some r /\ hex_decode s = Ok r.
+Proof. exact ProofsC15.hex_decode_is_spec. Qed.
+Print Assumptions hex_decode_is_spec.
+
+Theorem hex_decode_total : forall s, bytes_ok s = true ->
+  (exists r, hex_decode s = Ok r) \/ hex_decode s = Throw CodecError.
+Proof. exact ProofsC15.hex_decode_total. Qed.
+Print Assumptions hex_decode_total.
+
+(* never_overrun: every call returns normally (Ok: not Fault OOBWrite / OOBRead / Hang,
+   not Abort, not Throw) and never more than output_size cells are written *)
+Theorem hex_never_overrun : forall s output osize, bytes_ok s = true ->
+  exists r w, hex_decode_buf s output osize = Ok (r, w) /\ (length w <= osize)%nat.
+Proof. exact ProofsC15.hex_never_overrun. Qed.
+Print Assumptions hex_never_overrun.
+
+(* null_output: the length implied by the input's length, or -1; nothing written *)
+Theorem hex_null_output : forall s osize,
+  hex_decode_buf s false osize =
+  Ok (match hex_decoded_len s with Some n => Z.of_nat n | None => (-1)%Z end, []).
+Proof. exact ProofsDecHex.hex_decode_buf_null. Qed.
+Print Assumptions hex_null_output.
+
+(* written_eq_len + decode_is_spec: a non-negative return value is the number of cells
+   written, equals the implied length, and the cells are the Spec's decoding *)
+Theorem hex_written_eq_len : forall s osize r w, bytes_ok s = true ->
+  hex_decode_buf s true osize = Ok (r, w) -> (0 <= r)%Z ->
+  r = Z.of_nat (length w) /\ hex_decoded_len s = Some (length w) /\ hex_decode_spec s = Some w.
+Proof. exact ProofsC15.hex_written_eq_len. Qed.
+Print Assumptions hex_written_eq_len.
+
+Theorem hex_decode_buf_is_spec : forall s osize, bytes_ok s = true -> valid_hex s = true ->
+  (length s / 2 <= osize)%nat ->
+  exists r, hex_decode_spec s = Some r /\ length r = (length s / 2)%nat /\
+            hex_decode_buf s true osize = Ok (Z.of_nat (length r), r).
+Proof. exact ProofsC15.hex_decode_buf_is_spec. Qed.
+Print Assumptions hex_decode_buf_is_spec.
+
+(* the wrapper's assertion `written == decode_size` cannot fail *)
+Theorem hex_wrapper_assert_dead : forall s r w, bytes_ok s = true ->
+  hex_decode_buf s true (length s / 2) = Ok (r, w) ->
+  r = (-1)%Z \/ (r = Z.of_nat (length s / 2) /\ length w = (length s / 2)%nat).
+Proof. exact ProofsC15.hex_wrapper_assert_dead. Qed.
+Print Assumptions hex_wrapper_assert_dead.
+
+(* ======================= base64 ======================= *)
+Theorem b64_accept_iff : forall s osize, bytes_ok s = true ->
+  ((exists n w, b64_decode_buf s true osize = Ok (Z.of_nat n, w))
+   <-> (valid_b64 s = true /\ exists n, b64_decoded_len s = Some n /\ (n <= osize)%nat)).
+Proof. exact ProofsC15.b64_accept_iff. Qed.
+Print Assumptions b64_accept_iff.
+
+Theorem b64_reject : forall s osize, bytes_ok s = true ->
+  ~ (valid_b64 s = true /\ exists n, b64_decoded_len s = Some n /\ (n <= osize)%nat) ->
+  exists w, b64_decode_buf s true osize = Ok ((-1)%Z, w).
+Proof. exact ProofsC15.b64_reject. Qed.
+Print Assumptions b64_reject.
+
+Theorem base64_decode_throw_iff : forall s, bytes_ok s = true ->
+  (base64_decode s = Throw CodecError <-> valid_b64 s = false).
+Proof. exact ProofsC15.base64_decode_throw_iff. Qed.
+Print Assumptions base64_decode_throw_iff.
+
+Theorem base64_decode_is_spec : forall s, bytes_ok s = true -> valid_b64 s = true ->
+  exists r, b64_decode_spec s = Some r /\ base64_decode s = Ok r.
+Proof. exact ProofsC15.base64_decode_is_spec. Qed.
+Print Assumptions base64_decode_is_spec.
+
+Theorem base64_decode_total : forall s, bytes_ok s = true ->
+  (exists r, base64_decode s = Ok r) \/ base64_decode s = Throw CodecError.
+Proof. exact ProofsC15.base64_decode_total. Qed.
+Print Assumptions base64_decode_total.
+
+Theorem b64_never_overrun : forall s output osize, bytes_ok s = true ->
+  exists r w, b64_decode_buf s output osize = Ok (r, w) /\ (length w <= osize)%nat.
+Proof. exact ProofsC15.b64_never_overrun. Qed.
+Print Assumptions b64_never_overrun.
+
+Theorem b64_null_output : forall s osize,
+  b64_decode_buf s false osize =
+  Ok (match b64_decoded_len s with Some n => Z.of_nat n | None => (-1)%Z end, []).
+Proof. exact ProofsDecB64.b64_decode_buf_null. Qed.
+Print Assumptions b64_null_output.
+
+Theorem b64_written_eq_len : forall s osize r w, bytes_ok s = true ->
+  b64_decode_buf s true osize = Ok (r, w) -> (0 <= r)%Z ->
+  r = Z.of_nat (length w) /\ b64_decoded_len s = Some (length w) /\ b64_decode_spec s = Some w.
+Proof. exact ProofsC15.b64_written_eq_len. Qed.
+Print Assumptions b64_written_eq_len.
+
+Theorem b64_decode_buf_is_spec : forall s osize n, bytes_ok s = true -> valid_b64 s = true ->
+  b64_decoded_len s = Some n -> (n <= osize)%nat ->
+  exists r, b64_decode_spec s = Some r /\ length r = n /\
+            b64_decode_buf s true osize = Ok (Z.of_nat n, r).
+Proof. exact ProofsC15.b64_decode_buf_is_spec. Qed.
+Print Assumptions b64_decode_buf_is_spec.
+
+Theorem b64_wrapper_assert_dead : forall s n r w, bytes_ok s = true ->
+  b64_decoded_len s = Some n -> b64_decode_buf s true n = Ok (r, w) ->
+  r = (-1)%Z \/ (r = Z.of_nat n /\ length w = n).
+Proof. exact ProofsC15.b64_wrapper_assert_dead. Qed.
+Print Assumptions b64_wrapper_assert_dead.
+
+(* ---------------- anchors and non-vacuity ---------------- *)
+Example valid_hex_satisfiable :
+  bytes_ok [52; 97] = true /\ valid_hex [52; 97] = true /\ (length [52; 97] / 2 <= 1)%nat.
+Proof. exact ProofsExamples.nonvac_valid_hex. Qed.
+Example invalid_hex_satisfiable :
+  bytes_ok [52; 103] = true /\ ~ (valid_hex [52; 103] = true /\ (length [52; 103] / 2 <= 1)%nat).
+Proof. exact ProofsExamples.nonvac_invalid_hex. Qed.
+Example valid_b64_satisfiable :
+  bytes_ok [90; 109; 56; 61] = true /\ valid_b64 [90; 109; 56; 61] = true
+  /\ b64_decoded_len [90; 109; 56; 61] = Some 2%nat.
+Proof. exact ProofsExamples.nonvac_valid_b64. Qed.
+Example invalid_b64_satisfiable : bytes_ok [90; 103; 61; 65] = true /\ valid_b64 [90; 103; 61; 65] = false.
+Proof. exact ProofsExamples.nonvac_invalid_b64. Qed.
+Example written_hypothesis_satisfiable : hex_decode_buf [52; 97] true 5 = Ok (1%Z, [74]) /\ (0 <= 1)%Z.
+Proof. exact ProofsExamples.nonvac_written. Qed.
+Example written_hypothesis_satisfiable_b64 :
+  b64_decode_buf [90; 109; 56; 61] true 5 = Ok (2%Z, [102; 111]) /\ (0 <= 2)%Z.
+Proof. exact ProofsExamples.nonvac_written_b64. Qed.
+Example reject_pad_inside :
+  valid_b64 [90; 103; 61; 65] = false /\ base64_decode [90; 103; 61; 65] = Throw CodecError.    (* "Zg=A" *)
+Proof. exact ProofsExamples.reject_pad_inside. Qed.
+Example reject_three_pads :
+  valid_b64 [90; 61; 61; 61] = false /\ base64_decode [90; 61; 61; 61] = Throw CodecError.      (* "Z===" *)
+Proof. exact ProofsExamples.reject_three_pads. Qed.
+Example reject_pad_in_first_group :
+  valid_b64 [90; 103; 61; 61; 90; 103; 61; 61] = false
+  /\ base64_decode [90; 103; 61; 61; 90; 103; 61; 61] = Throw CodecError.                       (* "Zg==Zg==" *)
+Proof. exact ProofsExamples.reject_pad_group_first. Qed.
+Example too_small_buffer : b64_decode_buf [90; 109; 56; 61] true 1 = Ok ((-1)%Z, []).
+Proof. exact ProofsExamples.model_b64_buf_small. Qed.
+Example exact_buffer : b64_decode_buf [90; 103; 61; 61] true 1 = Ok (1%Z, [102]).
+Proof. exact ProofsExamples.model_b64_buf_exact. Qed.
+Example rejected_late_keeps_within_bounds :
+  b64_decode_buf [90; 109; 57; 118; 89; 33; 61; 61] true 4 = Ok ((-1)%Z, [102; 111; 111]).
+Proof. exact ProofsExamples.reject_late. Qed.
